@@ -1035,6 +1035,20 @@ class StmtMixin:
                     for b, s in self.branch(r[1], self.truth(r[2], r[1])):
                         if not b:
                             exits.append(s)
+            # progress relative to the environment's declared eventual guarantee
+            for label, env_expr, hpaths, prop, tag in getattr(inv, "exits_", []):
+                s0 = hav.clone()
+                s0.notes.append(f"loop{inv.loop}:after-the-other-threads-ran")
+                self._havoc_mod = None
+                for hp in hpaths:
+                    self.havoc_path(hp, s0, {})
+                s0.assume(self.spec_eval(env_expr, s0, {}, old=ctl.old if ctl else None, entry=entry, mode="hyp"))
+                if tag:
+                    self.assumptions_used.add(tag) if hasattr(self, "assumptions_used") else None
+                for r in self.ev(node.test, s0):
+                    if r[0] == "exc":
+                        continue
+                    self.prove(r[1], z3.Not(self.truth(r[2], r[1])), f"{base}/exits-under/{label}", prop=self.prop_of(prop), kind="progress")
         else:
             iter_starts = []
             for s, item in self.loop_next(it_state, iterable, idx_name, seen_name):
